@@ -446,10 +446,10 @@ func TestC22(t *testing.T) {
 	r := vkit.Start(t, "C22", "exploration")
 	defer r.Finish()
 	defer c22PanicGuard(t)
-	r.Rule("case = (dataset, query): dataset = 2 measurements × 3–9 series (2–3 tag keys, sparse tag t2) × 1–3 typed fields on a 1 s grid with negative timestamps, stored in 1–3 real shards with TSM snapshots, cache-resident batches, overwrites and optional reopen; query drawn from the C22 grammar (raw | count/sum/mean/min/max/first/last; WHERE time+tags+fields; GROUP BY time(i[,off]) / tags / *; fill; ORDER BY time DESC; LIMIT/OFFSET/SLIMIT/SOFFSET) and executed by query.Select over coordinator.LocalShardMapper, rows via query.Emitter(chunk 0); compared with the independent reference evaluator. non-trivial = the reference result has ≥ 1 row and the query range holds ≥ 2 stored points; distinct = hash of (dataset description, query text)")
+	r.Rule("case = (dataset, query): dataset = 2 measurements × 3–9 series (2–3 tag keys, sparse tag t2) × 1–3 typed fields on a 1 s grid with negative timestamps, stored in 1–3 real shards with TSM snapshots, cache-resident batches, overwrites and optional reopen; query drawn from the C22 grammar (raw | count/sum/mean/min/max/first/last; WHERE time+tags+fields; GROUP BY time(i[,off]) / tags / *; fill; ORDER BY time DESC; LIMIT/OFFSET/SLIMIT/SOFFSET) and executed by query.Select over coordinator.LocalShardMapper, rows via query.Emitter(chunk 0); compared with the independent reference evaluator. non-trivial = the reference result has ≥ 1 row; distinct = hash of (dataset description, query text)")
 	r.Trust("github.com/influxdata/influxql parser (statement text → AST)", "vkit/sk shard opener")
 	var reportDur time.Duration
-	nDS := r.N(40, 1500)
+	nDS := r.N(60, 1000)
 	perDS := r.N(30, 40)
 	excluded := []string{
 		"transformations (C23) and any function outside count/sum/mean/min/max/first/last",
